@@ -4,13 +4,16 @@ package c13
 import (
 	"encoding/json"
 	"fmt"
-	"hash/fnv"
+	"html/template"
+	"math"
 	"reflect"
 	"regexp"
 	"sort"
 	"strings"
+	"sync"
 	"sync/atomic"
 	"testing"
+	"time"
 
 	"verif/corpus"
 	"verif/internal/model"
@@ -25,20 +28,49 @@ func TestMain(m *testing.M) { vk.Main(m) }
 
 // ---- deep structural hash of a parsed program (H1) ----------------------------------------
 
+// FNV-1a, written out so that hashing a tree allocates nothing but the table of pointers seen
 type hasher struct {
-	h    interface{ Write([]byte) (int, error) }
-	sum  func() uint64
+	sum  uint64
 	seen map[uintptr]int
 }
 
+const fnvOffset, fnvPrime = 14695981039346656037, 1099511628211
+
 func structHash(v interface{}) uint64 {
-	f := fnv.New64a()
-	hs := &hasher{h: f, sum: f.Sum64, seen: map[uintptr]int{}}
+	hs := &hasher{sum: fnvOffset, seen: map[uintptr]int{}}
 	hs.walk(reflect.ValueOf(v))
-	return f.Sum64()
+	return hs.sum
 }
 
-func (h *hasher) str(s string) { h.h.Write([]byte(s)); h.h.Write([]byte{0}) }
+func (h *hasher) str(s string) {
+	for i := 0; i < len(s); i++ {
+		h.sum = (h.sum ^ uint64(s[i])) * fnvPrime
+	}
+	h.sum = (h.sum ^ 0xff) * fnvPrime // terminator: "ab","c" differs from "a","bc"
+}
+
+func (h *hasher) num(tag byte, n uint64) {
+	h.sum = (h.sum ^ uint64(tag)) * fnvPrime
+	for i := 0; i < 8; i++ {
+		h.sum = (h.sum ^ (n & 0xff)) * fnvPrime
+		n >>= 8
+	}
+}
+
+// names of a struct type's fields (reflect.Type.Field is slow and allocates)
+var fieldNames sync.Map
+
+func fields(t reflect.Type) []string {
+	if v, ok := fieldNames.Load(t); ok {
+		return v.([]string)
+	}
+	names := make([]string, t.NumField())
+	for i := range names {
+		names[i] = t.Field(i).Name
+	}
+	fieldNames.Store(t, names)
+	return names
+}
 
 func (h *hasher) walk(v reflect.Value) {
 	if !v.IsValid() {
@@ -48,28 +80,32 @@ func (h *hasher) walk(v reflect.Value) {
 	switch v.Kind() {
 	case reflect.Ptr:
 		if v.IsNil() {
-			h.str("nilptr:" + v.Type().String())
+			h.str("nilptr:")
+			h.str(v.Type().String())
 			return
 		}
 		p := v.Pointer()
 		if id, ok := h.seen[p]; ok {
-			h.str(fmt.Sprintf("ref#%d", id)) // pointer topology, cycle-safe
+			h.num('r', uint64(id)) // pointer topology, cycle-safe
 			return
 		}
 		h.seen[p] = len(h.seen)
-		h.str("ptr:" + v.Type().String())
+		h.str("ptr:")
+		h.str(v.Type().String())
 		h.walk(v.Elem())
 	case reflect.Interface:
 		if v.IsNil() {
 			h.str("niliface")
 			return
 		}
-		h.str("iface:" + v.Elem().Type().String())
+		h.str("iface:")
+		h.str(v.Elem().Type().String())
 		h.walk(v.Elem())
 	case reflect.Struct:
-		h.str("struct:" + v.Type().String())
-		for i := 0; i < v.NumField(); i++ {
-			h.str(v.Type().Field(i).Name)
+		h.str("struct:")
+		h.str(v.Type().String())
+		for i, name := range fields(v.Type()) {
+			h.str(name)
 			h.walk(v.Field(i))
 		}
 	case reflect.Slice:
@@ -77,7 +113,7 @@ func (h *hasher) walk(v reflect.Value) {
 			h.str("nilslice")
 			return
 		}
-		h.str(fmt.Sprintf("slice[%d]", v.Len()))
+		h.num('s', uint64(v.Len()))
 		for i := 0; i < v.Len(); i++ {
 			h.walk(v.Index(i))
 		}
@@ -106,21 +142,26 @@ func (h *hasher) walk(v reflect.Value) {
 			es = append(es, ent{id, k, v.MapIndex(k)})
 		}
 		sort.SliceStable(es, func(i, j int) bool { return es[i].id < es[j].id })
-		h.str(fmt.Sprintf("map[%d]", len(es)))
+		h.num('m', uint64(len(es)))
 		for _, e := range es {
 			h.walk(e.k)
 			h.walk(e.v)
 		}
 	case reflect.String:
-		h.str("s:" + v.String())
+		h.str("s:")
+		h.str(v.String())
 	case reflect.Bool:
-		h.str(fmt.Sprint("b:", v.Bool()))
+		if v.Bool() {
+			h.num('b', 1)
+		} else {
+			h.num('b', 0)
+		}
 	case reflect.Int, reflect.Int8, reflect.Int16, reflect.Int32, reflect.Int64:
-		h.str(fmt.Sprint("i:", v.Int()))
+		h.num('i', uint64(v.Int()))
 	case reflect.Uint, reflect.Uint8, reflect.Uint16, reflect.Uint32, reflect.Uint64:
-		h.str(fmt.Sprint("u:", v.Uint()))
+		h.num('u', v.Uint())
 	case reflect.Float32, reflect.Float64:
-		h.str(fmt.Sprint("f:", v.Float()))
+		h.num('f', math.Float64bits(v.Float()))
 	case reflect.Func:
 		h.str("func")
 	default:
@@ -134,6 +175,9 @@ type Tmpl struct {
 	Src      string            `json:"src"`
 	Partials map[string]string `json:"partials,omitempty"`
 	Prog     json.RawMessage   `json:"prog,omitempty"` // informational
+	// Data names the context data the template is executed with: "" = the shared generator's fixed data,
+	// "rich" = the same plus maps, structs with (stateful) methods, typed slices, a time, an iterator (richData)
+	Data string `json:"data,omitempty"`
 }
 
 type Case struct {
@@ -142,7 +186,14 @@ type Case struct {
 	Actions [][2]int `json:"actions"`
 }
 
-var actionNames = []string{"Exec again", "NewTemplate+Exec", "Clone+Exec", "Render cache off", "Render cache on (cold)", "Render cache on (warm)", "Parse cache on then Exec", "Exec on the cached template"}
+// The first eight keep their index (committed replay files name them by index); new routes are appended.
+var actionNames = []string{"Exec again", "NewTemplate+Exec", "Clone+Exec", "Render cache off", "Render cache on (cold)", "Render cache on (warm)", "Parse cache on then Exec", "Exec on the cached template",
+	"BuffaloRenderer cache off", "BuffaloRenderer cache on", "RenderR cache off", "zero-value Template: lazy parse in Exec, then Exec again", "Parse() again then Exec", "Clone of a Clone + Exec, then Exec on the original"}
+
+const (
+	aExec, aNew, aClone, aRender, aCold, aWarm, aParseExec, aCachedTwice = 0, 1, 2, 3, 4, 5, 6, 7
+	aBuffalo, aBuffaloCache, aRenderR, aLazy, aReparse, aCloneClone      = 8, 9, 10, 11, 12, 13
+)
 
 var addr = regexp.MustCompile(`0x[0-9a-f]+`)
 
@@ -165,20 +216,156 @@ type state struct {
 	progHash uint64
 }
 
-func execOne(t Tmpl, fn func(ctx *plush.Context) (string, error)) result {
-	var trace []string
-	helpers := progs.Helpers(map[string]model.Helper{
-		"rec": func(a []interface{}) (interface{}, error) { trace = append(trace, fmt.Sprint(a[0])); return a[0], nil },
+// ---- context data ------------------------------------------------------------------------------
+
+// obj is a struct value of the rich data: fields, a nested pointer, a method with per-instance state (Count), a
+// method that records its invocation (Say) and a value-receiver method (Upper).
+type obj struct {
+	Name  string
+	Tags  []string
+	Meta  map[string]interface{}
+	Next  *obj
+	n     int
+	trace *[]string
+}
+
+func (o *obj) Count() int { o.n++; return o.n }
+func (o *obj) Say(s string) string {
+	*o.trace = append(*o.trace, "say:"+o.Name+":"+s)
+	return o.Name + " says " + s
+}
+func (o obj) Upper() string { return strings.ToUpper(o.Name) }
+
+type iter struct{ i int }
+
+func (it *iter) Next() interface{} {
+	if it.i >= 3 {
+		return nil
+	}
+	it.i++
+	return it.i * 11
+}
+
+// richData: equal data = the same constructor run again (fresh instances, fresh counters).
+func richData(trace *[]string) map[string]interface{} {
+	d := progs.Data()
+	bob := &obj{Name: "Bob", Tags: []string{"b1"}, Meta: map[string]interface{}{}, trace: trace}
+	ann := &obj{Name: "Ann", Tags: []string{"x<y", "z"}, Meta: map[string]interface{}{"k": "v&w"}, Next: bob, trace: trace}
+	for k, v := range map[string]interface{}{
+		"m0": map[string]interface{}{}, "m1": map[string]interface{}{"only": 1}, "m3": map[string]interface{}{"a": 1, "b": "two", "c": true},
+		"mi": map[int]string{1: "one"}, "mnest": map[string]interface{}{"in": map[string]interface{}{"x": 5}},
+		"ann": ann, "bob": bob, "objs": []*obj{ann, bob}, "uval": obj{Name: "Val", trace: trace}, "nilp": (*obj)(nil),
+		"strs": []string{"p", "q"}, "ints": []int{4, 5, 6}, "when": time.Date(2020, 2, 3, 4, 5, 6, 0, time.UTC), "html": template.HTML("<b>ok</b>"),
+		"it": &iter{},
+	} {
+		d[k] = v
+	}
+	return d
+}
+
+// env is one execution's world: fresh-but-equal data, helpers that record into this execution's trace.
+type env struct {
+	t     Tmpl
+	trace []string
+	ticks int
+}
+
+func (e *env) data() map[string]interface{} {
+	if e.t.Data == "rich" {
+		return richData(&e.trace)
+	}
+	return progs.Data()
+}
+
+func (e *env) helpers() map[string]model.Helper {
+	return progs.Helpers(map[string]model.Helper{
+		"rec": func(a []interface{}) (interface{}, error) {
+			e.trace = append(e.trace, fmt.Sprint(a[0]))
+			return a[0], nil
+		},
+		"tick": func(a []interface{}) (interface{}, error) { e.ticks++; return e.ticks, nil }, // state per context
+		"boom": func(a []interface{}) (interface{}, error) { return nil, fmt.Errorf("boom") },
+		"pnk":  func(a []interface{}) (interface{}, error) { panic("helper panics") },
 	})
-	ctx := progs.Context(progs.Data(), helpers, t.Partials)
-	res := vk.Safe(func() (string, error) { return fn(ctx) })
-	r := result{out: res.Out, trace: strings.Join(trace, ",")}
+}
+
+func (e *env) ctx() *plush.Context { return progs.Context(e.data(), e.helpers(), e.t.Partials) }
+
+// maps gives the same world as two plain maps, the way BuffaloRenderer takes it.
+func (e *env) maps() (map[string]interface{}, map[string]interface{}) {
+	data := e.data()
+	hs := map[string]interface{}{}
+	for name, h := range e.helpers() {
+		h := h
+		hs[name] = func(args ...interface{}) (interface{}, error) {
+			in := make([]interface{}, len(args))
+			for i := range args {
+				in[i] = model.FromPlush(args[i])
+			}
+			v, err := h(in)
+			if err != nil {
+				return nil, err
+			}
+			return model.ToPlush(v), nil
+		}
+	}
+	parts := e.t.Partials
+	hs["partialFeeder"] = func(name string) (string, error) {
+		s, ok := parts[name]
+		if !ok {
+			return "", fmt.Errorf("no partial %q", name)
+		}
+		return s, nil
+	}
+	hs["blk"] = func(help plush.HelperContext) (template.HTML, error) {
+		s, err := help.BlockWith(help.New())
+		return template.HTML(s), err
+	}
+	return data, hs
+}
+
+func errText(err error) string { return addr.ReplaceAllString(err.Error(), "0xADDR") }
+
+// run executes fn in a fresh world and returns (output, normalised error, helper trace).
+func run(t Tmpl, fn func(e *env) (string, error)) result {
+	e := &env{t: t}
+	res := vk.Safe(func() (string, error) { return fn(e) })
+	r := result{out: res.Out, trace: strings.Join(e.trace, ",")}
 	if res.Panicked() {
 		r.err = "PANIC " + fmt.Sprint(res.Panic)
 	} else if res.Err != nil {
-		r.err = addr.ReplaceAllString(res.Err.Error(), "0xADDR")
+		r.err = errText(res.Err)
 	}
 	return r
+}
+
+// hashed executes tm in a fresh world and verifies that neither the parsed program nor the input text changed.
+func hashed(t Tmpl, tm *plush.Template, known map[*plush.Template]uint64, mutated *string, what string) result {
+	var before uint64
+	had := tm.VerifProgram() != nil
+	if had {
+		// the hash taken after the template's last execution in this history is the one before this execution
+		if h, ok := known[tm]; ok {
+			before = h
+		} else {
+			before = structHash(tm.VerifProgram())
+		}
+	}
+	input := tm.Input
+	res := run(t, func(e *env) (string, error) { return tm.Exec(e.ctx()) })
+	if tm.Input != input && *mutated == "" {
+		*mutated = fmt.Sprintf("%s: the Input of the template changed from %q to %q", what, input, tm.Input)
+	}
+	if had && *mutated == "" {
+		if tm.VerifProgram() == nil {
+			*mutated = what + ": the parsed program is gone"
+		} else if after := structHash(tm.VerifProgram()); after != before {
+			*mutated = fmt.Sprintf("%s: the parsed program changed during the execution: structural hash %x -> %x", what, before, after)
+		} else {
+			known[tm] = after
+		}
+	}
+	return res
 }
 
 func runCase(r *vk.Run, c Case, class string) *vk.Fail {
@@ -186,6 +373,7 @@ func runCase(r *vk.Run, c Case, class string) *vk.Fail {
 	saved := plush.CacheEnabled
 	defer func() { plush.CacheEnabled = saved }()
 	sts := make([]*state, len(c.Templates))
+	known := map[*plush.Template]uint64{}
 	fail := func(f string, a ...interface{}) *vk.Fail {
 		return &vk.Fail{Kind: "history", Case: c, Msg: fmt.Sprintf(f, a...)}
 	}
@@ -195,91 +383,134 @@ func runCase(r *vk.Run, c Case, class string) *vk.Fail {
 		st.parsed, st.perr = plush.NewTemplate(t.Src)
 		if st.perr == nil {
 			st.progHash = structHash(st.parsed.VerifProgram())
+			known[st.parsed] = st.progHash
 		}
 		sts[i] = st
 	}
 	for step, a := range c.Actions {
 		ti, ai := a[0]%len(c.Templates), a[1]%len(actionNames)
 		t, st := c.Templates[ti], sts[ti]
-		var res result
+		var ress []result // everything this route executed, in order
+		mutated := ""
 		checkHash := false
-		switch ai {
-		case 0: // Exec again on the one parsed template
-			if st.perr != nil {
-				res = result{err: addr.ReplaceAllString(st.perr.Error(), "0xADDR")}
-			} else {
-				res = execOne(t, func(ctx *plush.Context) (string, error) { return st.parsed.Exec(ctx) })
-				checkHash = true
+		// the one parsed template (or the template NewTemplate returned next to a parse error: executing it reports the error)
+		onParsed := func(pick func(tm *plush.Template) []*plush.Template) {
+			if st.parsed == nil {
+				ress = append(ress, result{err: errText(st.perr)})
+				return
 			}
-		case 1:
+			if st.perr != nil {
+				// the error value handed out by the parse keeps its text
+				ress = append(ress, result{err: errText(st.perr)})
+			}
+			for _, tm := range pick(st.parsed) {
+				ress = append(ress, hashed(t, tm, known, &mutated, actionNames[ai]))
+			}
+			checkHash = st.perr == nil
+		}
+		viaCache := func(src string, twice bool) {
+			plush.CacheEnabled = true
+			pt, err := plush.Parse(src)
+			if err != nil {
+				ress = append(ress, result{err: errText(err)})
+				// the template returned next to the error reports it too
+				if pt != nil {
+					ress = append(ress, hashed(t, pt, known, &mutated, actionNames[ai]))
+				}
+				return
+			}
+			ress = append(ress, hashed(t, pt, known, &mutated, actionNames[ai]))
+			if twice {
+				ress = append(ress, hashed(t, pt, known, &mutated, actionNames[ai]))
+			}
+		}
+		switch ai {
+		case aExec: // Exec again on the one parsed template
+			onParsed(func(tm *plush.Template) []*plush.Template { return []*plush.Template{tm} })
+		case aNew:
 			plush.CacheEnabled = false
-			res = execOne(t, func(ctx *plush.Context) (string, error) {
+			ress = append(ress, run(t, func(e *env) (string, error) {
 				nt, err := plush.NewTemplate(t.Src)
 				if err != nil {
 					return "", err
 				}
-				return nt.Exec(ctx)
-			})
-		case 2:
-			if st.perr != nil {
-				res = result{err: addr.ReplaceAllString(st.perr.Error(), "0xADDR")}
-			} else {
-				res = execOne(t, func(ctx *plush.Context) (string, error) { return st.parsed.Clone().Exec(ctx) })
-				checkHash = true
-			}
-		case 3:
+				return nt.Exec(e.ctx())
+			}))
+		case aClone:
+			onParsed(func(tm *plush.Template) []*plush.Template { return []*plush.Template{tm.Clone()} })
+		case aRender:
 			plush.CacheEnabled = false
-			res = execOne(t, func(ctx *plush.Context) (string, error) { return plush.Render(t.Src, ctx) })
-		case 4: // cold: make the text unique with a leading comment tag (contributes nothing, whatever the template's end looks like)
+			ress = append(ress, run(t, func(e *env) (string, error) { return plush.Render(t.Src, e.ctx()) }))
+		case aCold, aWarm:
+			// cold: make the text unique with a leading comment tag (contributes nothing, whatever the template's end looks like);
+			// warm: the same text again, now served from the cache
 			plush.CacheEnabled = true
-			st.coldSrc = fmt.Sprintf("<%%# cache-buster %d %%>%s", atomic.AddInt64(&uniq, 1), t.Src)
-			src := st.coldSrc
-			res = execOne(t, func(ctx *plush.Context) (string, error) { return plush.Render(src, ctx) })
-		case 5: // warm: the same text again, now served from the cache
-			plush.CacheEnabled = true
-			if st.coldSrc == "" {
+			if ai == aCold || st.coldSrc == "" {
 				st.coldSrc = fmt.Sprintf("<%%# cache-buster %d %%>%s", atomic.AddInt64(&uniq, 1), t.Src)
 			}
 			src := st.coldSrc
-			res = execOne(t, func(ctx *plush.Context) (string, error) { return plush.Render(src, ctx) })
-		case 6: // Parse through the cache, then Exec
-			plush.CacheEnabled = true
-			res = execOne(t, func(ctx *plush.Context) (string, error) {
-				pt, err := plush.Parse(t.Src)
-				if err != nil {
-					return "", err
+			var cached *plush.Template
+			var before uint64
+			if ai == aWarm {
+				// the cached object, if there is one already: its program must survive the render unchanged
+				if pt, err := plush.Parse(src); err == nil && pt.VerifProgram() != nil {
+					cached, before = pt, structHash(pt.VerifProgram())
 				}
-				return pt.Exec(ctx)
+			}
+			ress = append(ress, run(t, func(e *env) (string, error) { return plush.Render(src, e.ctx()) }))
+			if cached != nil {
+				if after := structHash(cached.VerifProgram()); after != before {
+					mutated = fmt.Sprintf("%s: the program of the cached template changed during the render: structural hash %x -> %x", actionNames[ai], before, after)
+				}
+			}
+		case aParseExec: // Parse through the cache, then Exec
+			viaCache(t.Src, false)
+		case aCachedTwice: // the cached template object executed twice in a row
+			viaCache(t.Src, true)
+		case aBuffalo, aBuffaloCache:
+			plush.CacheEnabled = ai == aBuffaloCache
+			ress = append(ress, run(t, func(e *env) (string, error) {
+				data, helpers := e.maps()
+				return plush.BuffaloRenderer(t.Src, data, helpers)
+			}))
+		case aRenderR:
+			plush.CacheEnabled = false
+			ress = append(ress, run(t, func(e *env) (string, error) { return plush.RenderR(strings.NewReader(t.Src), e.ctx()) }))
+		case aLazy: // a Template made by hand parses on its first Exec and keeps the program for the second
+			plush.CacheEnabled = false
+			tm := &plush.Template{Input: t.Src}
+			ress = append(ress, hashed(t, tm, known, &mutated, actionNames[ai]), hashed(t, tm, known, &mutated, actionNames[ai]), hashed(t, tm.Clone(), known, &mutated, actionNames[ai]))
+		case aReparse: // "Parse ... can be called many times"
+			onParsed(func(tm *plush.Template) []*plush.Template {
+				if err := tm.Parse(); err != nil {
+					ress = append(ress, result{err: errText(err)})
+				}
+				return []*plush.Template{tm}
 			})
-		default: // the cached template object executed twice in a row
-			plush.CacheEnabled = true
-			res = execOne(t, func(ctx *plush.Context) (string, error) {
-				pt, err := plush.Parse(t.Src)
-				if err != nil {
-					return "", err
-				}
-				if _, err := pt.Exec(progs.Context(progs.Data(), progs.Helpers(map[string]model.Helper{"rec": func(a []interface{}) (interface{}, error) { return a[0], nil }}), t.Partials)); err != nil {
-					_ = err
-				}
-				return pt.Exec(ctx)
-			})
+		default: // aCloneClone
+			onParsed(func(tm *plush.Template) []*plush.Template { return []*plush.Template{tm.Clone().Clone(), tm} })
 		}
 		plush.CacheEnabled = false
-		if strings.HasPrefix(res.err, "PANIC") {
-			r.Exclude("panic (subject of C03/C04)")
-			return nil
-		}
-		if st.first == nil {
-			cp := res
-			st.first = &cp
-			st.firstBy = actionNames[ai]
-		} else if *st.first != res {
-			return fail("template %d %q: step %d (%s) gave %s, but the first execution (%s) gave %s", ti, t.Src, step+1, actionNames[ai], res, st.firstBy, *st.first)
-		}
-		if checkHash {
-			if h := structHash(st.parsed.VerifProgram()); h != st.progHash {
-				return fail("template %d %q: the parsed program changed during step %d (%s): structural hash %x -> %x", ti, t.Src, step+1, actionNames[ai], st.progHash, h)
+		for _, res := range ress {
+			if strings.HasPrefix(res.err, "PANIC") {
+				r.Exclude("panic (subject of C03/C04)")
+				return nil
 			}
+		}
+		for k, res := range ress {
+			if st.first == nil {
+				cp := res
+				st.first = &cp
+				st.firstBy = actionNames[ai]
+			} else if *st.first != res {
+				return fail("template %d %q: step %d (%s, result %d of the step) gave %s, but the first execution (%s) gave %s", ti, t.Src, step+1, actionNames[ai], k+1, res, st.firstBy, *st.first)
+			}
+		}
+		if mutated != "" {
+			return fail("template %d %q: step %d: %s", ti, t.Src, step+1, mutated)
+		}
+		if checkHash && known[st.parsed] != st.progHash {
+			return fail("template %d %q: the parsed program changed during step %d (%s): structural hash %x -> %x", ti, t.Src, step+1, actionNames[ai], st.progHash, known[st.parsed])
 		}
 	}
 	b, _ := json.Marshal(c)
@@ -293,6 +524,9 @@ func runCase(r *vk.Run, c Case, class string) *vk.Fail {
 			var acts []string
 			for _, a := range c.Actions {
 				acts = append(acts, fmt.Sprintf("t%d:%s", a[0]%len(c.Templates), actionNames[a[1]%len(actionNames)]))
+			}
+			if len(acts) > 40 {
+				acts = append(acts[:40], fmt.Sprintf("... (%d actions)", len(c.Actions)))
 			}
 			var srcs []string
 			for _, t := range c.Templates {
@@ -340,7 +574,367 @@ func genTmpl(t *rapid.T) Tmpl {
 	return Tmpl{Src: src, Partials: progs.PartialText(pr, g.Partials), Prog: model.Encode(prog)}
 }
 
-const rule = "templates: random programs over all constructs (shared generator; some with planted faults so that errors must be deterministic too) spliced with hash literals of 3-5 entries whose values call a recording helper and with duplicate keys; plus (E) the 277 templates harvested from the repository's tests, 9 hash-literal snippets and a partial that includes itself (overlapping executions of one cached template object). Histories: 1-3 templates x up to 14 interleaved actions from {Exec again on the parsed template, NewTemplate+Exec, Clone+Exec, Render with the cache off, Render with the cache on and cold (text made unique by a leading comment tag), Render cache-on warm, Parse through the cache then Exec, Exec twice on the cached object}; context data rebuilt fresh-but-equal for every execution. (E) every template x all 8 actions x 2 rounds; (R) random histories. Oracle: every (output, error text with addresses normalised, recorded helper invocation order) equals the first result for that template; the deep structural hash of the parsed program (all fields incl. token lines, pointer topology, H1 accessor) is identical after every Exec. Excluded by construction: for over Go maps / multi-entry hash literals (the licensed variation). Non-trivial = histories of >= 3 actions; distinct by (templates, actions)."
+// ---- shapes: templates written as text over the rich data ------------------------------------------
+
+// litHash spells a hash literal of n entries over a small key pool (so duplicate keys are frequent for n > 3):
+// keys as identifiers or strings; values that record (rec), count (tick), are plain literals, or nest.
+func litHash(t *rapid.T, n int, mode int) (string, []string) {
+	var parts, keys []string
+	seen := map[string]bool{}
+	for i := 0; i < n; i++ {
+		k := fmt.Sprintf("k%d", rapid.IntRange(0, 5).Draw(t, "key"))
+		if !seen[k] {
+			seen[k] = true
+			keys = append(keys, k)
+		}
+		spelt := k
+		if rapid.Bool().Draw(t, "quoted") {
+			spelt = `"` + k + `"`
+		}
+		vk := mode
+		if mode == 2 {
+			vk = rapid.IntRange(0, 5).Draw(t, "val")
+		}
+		var v string
+		switch vk {
+		case 0: // literals only
+			v = rapid.SampledFrom([]string{"1", "22", `"s"`, "true", "3.5", `"a<b"`}).Draw(t, "lit")
+		case 1:
+			v = fmt.Sprintf("rec(%d)", i+1)
+		case 3:
+			v = "tick()"
+		case 4:
+			v = fmt.Sprintf("{x: rec(%d), y: %d, x: rec(%d)}", 100+i, i, 200+i)
+		case 5:
+			v = fmt.Sprintf("[rec(%d), %d]", 300+i, i)
+		default:
+			v = fmt.Sprintf("rec(%d) + i%d", i+1, rapid.SampledFrom([]int{0, 1, 2, 7}).Draw(t, "var"))
+		}
+		parts = append(parts, spelt+": "+v)
+	}
+	sort.Strings(keys)
+	return "{" + strings.Join(parts, ", ") + "}", keys
+}
+
+func reads(name string, keys []string) string {
+	var b strings.Builder
+	for _, k := range append(append([]string{}, keys...), "absent") {
+		fmt.Fprintf(&b, `<%%= %s["%s"] %%>,`, name, k)
+	}
+	fmt.Fprintf(&b, `<%%= len(%s) %%>;`, name)
+	return b.String()
+}
+
+// hashShape: a hash literal of 0..12 entries, used in place, through a let, in a loop body and a function body
+// that are entered several times, as the data of a partial / of contentOf, and assigned to after it was made
+// (a literal that is evaluated again must start from its spelling, in this execution and in every later one).
+func hashShape(t *rapid.T) Tmpl {
+	n := rapid.SampledFrom([]int{0, 1, 1, 2, 2, 3, 3, 4, 5, 6, 8, 9, 12}).Draw(t, "n")
+	lit, keys := litHash(t, n, rapid.SampledFrom([]int{0, 0, 1, 2, 2}).Draw(t, "mode"))
+	mutate := func(name string) string {
+		k := "k9"
+		if len(keys) > 0 && rapid.Bool().Draw(t, "existing") {
+			k = rapid.SampledFrom(keys).Draw(t, "mkey")
+		}
+		switch rapid.IntRange(0, 2).Draw(t, "mut") {
+		case 0:
+			return ""
+		case 1:
+			return fmt.Sprintf(`<%% %s["%s"] = 77 %%>`, name, k)
+		}
+		return fmt.Sprintf(`<%% %s["%s"] = rec("m") %%><%%= %s["%s"] %%>/`, name, k, name, k)
+	}
+	tm := Tmpl{Data: "rich"}
+	rk := append(append([]string{}, keys...), "k9")
+	switch rapid.IntRange(0, 7).Draw(t, "use") {
+	case 0:
+		tm.Src = `<% let h = ` + lit + ` %>` + mutate("h") + reads("h", rk)
+	case 1:
+		k := "k0"
+		if len(keys) > 0 {
+			k = rapid.SampledFrom(keys).Draw(t, "rkey")
+		}
+		tm.Src = fmt.Sprintf(`<%%= %s["%s"] %%>|<%%= id(%s)["%s"] %%>|<%%= len(%s) %%>`, lit, k, lit, k, lit)
+	case 2: // the literal in a loop body: made afresh on every iteration
+		tm.Src = `<%= for (i) in arr { %><% let h = ` + lit + ` %>` + reads("h", rk) + mutate("h") + `<% h["k9"] = i %>|<% } %>`
+	case 3: // the literal in a function body called several times; the results are distinct values
+		tm.Src = `<% let mk = fn() { return ` + lit + ` } %><% let h = mk() %>` + mutate("h") + `<% h["k9"] = 1 %><% let g = mk() %>` + reads("g", rk) + reads("h", rk)
+	case 4: // as the data of a partial
+		var b strings.Builder
+		for _, k := range keys {
+			fmt.Fprintf(&b, "<%%= %s %%>,", k)
+		}
+		tm.Partials = map[string]string{"hp": "(" + b.String() + "<%= i1 %>)"}
+		tm.Src = `<%= partial("hp", ` + lit + `) %><%= for (i) in two { %><%= partial("hp", ` + lit + `) %><% } %>`
+	case 5: // as the data of contentOf
+		var b strings.Builder
+		for _, k := range keys {
+			fmt.Fprintf(&b, "<%%= %s %%>,", k)
+		}
+		tm.Src = `<% contentFor("hc") { %>[` + b.String() + `]<% } %><%= contentOf("hc", ` + lit + `) %><%= contentOf("hc", ` + lit + `) %>`
+	case 6: // nested in an array and in a hash
+		tm.Src = `<% let a = [` + lit + `, ` + lit + `] %><% let x = a[0] %>` + mutate("x") + `<% let y = a[1] %>` + reads("y", rk) + `<% let o = {in: ` + lit + `} %><% let z = o["in"] %>` + reads("z", rk)
+	default: // encoded as a whole (keys are printed sorted)
+		tm.Src = `<% let h = ` + lit + ` %>` + mutate("h") + `<%= toJSON(h) %>|<%= inspect(h) %>|<%= "" + h %>`
+	}
+	return tm
+}
+
+// arrayShape: the same for array literals (0..6 elements) with in-place element assignment.
+func arrayShape(t *rapid.T) Tmpl {
+	n := rapid.IntRange(0, 6).Draw(t, "n")
+	var els []string
+	for i := 0; i < n; i++ {
+		els = append(els, rapid.SampledFrom([]string{"1", "20", `"s"`, "true", "rec(5)", "i2", "tick()", "[1, 2]", "{a: 1}"}).Draw(t, "el"))
+	}
+	if rapid.Bool().Draw(t, "scalars") {
+		for i := range els {
+			els[i] = fmt.Sprint(i + 1)
+		}
+	}
+	lit := "[" + strings.Join(els, ", ") + "]"
+	rd := func(name string) string {
+		var b strings.Builder
+		for i := 0; i < n; i++ {
+			fmt.Fprintf(&b, "<%%= %s[%d] %%>,", name, i)
+		}
+		fmt.Fprintf(&b, "<%%= len(%s) %%>;", name)
+		return b.String()
+	}
+	mut := func(name string) string {
+		if n == 0 {
+			return ""
+		}
+		i := rapid.IntRange(0, n-1).Draw(t, "mi")
+		return fmt.Sprintf(`<%% %s[%d] = "M" %%>`, name, i)
+	}
+	tm := Tmpl{Data: "rich"}
+	switch rapid.IntRange(0, 3).Draw(t, "use") {
+	case 0:
+		tm.Src = `<% let a = ` + lit + ` %>` + mut("a") + rd("a")
+	case 1:
+		tm.Src = `<%= for (i) in two { %><% let a = ` + lit + ` %>` + rd("a") + mut("a") + `|<% } %>`
+	case 2:
+		tm.Src = `<% let mk = fn() { return ` + lit + ` } %><% let a = mk() %>` + mut("a") + `<% let b = mk() %>` + rd("b") + rd("a")
+	default:
+		tm.Src = `<%= for (x) in ` + lit + ` { %><%= x %>.<% } %><%= ` + lit + ` %>`
+	}
+	return tm
+}
+
+// pieces over the rich data; every one renders without error on its own (a failing piece would cut the rest short)
+var richPieces = []string{
+	`<%= ann.Name %>`, `<%= ann.Next.Name %>`, `<%= ann.Tags[0] %>`, `<%= ann.Meta["k"] %>`, `<%= ann.Count() %><%= ann.Count() %>`, `<%= ann.Say("hi") %>`,
+	`<%= ann.Upper() %>`, `<%= uval.Upper() %>`, `<%= uval.Name %>`, `<%= for (o) in objs { %><%= o.Name %>:<%= o.Count() %>;<% } %>`, `<%= objs[1].Name %>`, `<%= objs[0].Count() %>`,
+	`<%= nilp %>|<%= nilp == nil %>`, `<%= len(strs) %>`, `<%= for (s) in strs { %><%= s %><% } %>`, `<%= ints[1] + 1 %>`, `<%= when %>`, `<%= html %>`, `<%= toJSON(m3) %>`, `<%= inspect(m3) %>`,
+	`<%= m1["only"] %>`, `<%= mi[1] %>`, `<%= mnest["in"]["x"] %>`, `<%= len(m3) %>`, `<%= "" + m3 %>`,
+	// for over a Go map where the visiting order cannot show: no entry, one entry, a body that does not look at the entry
+	`<%= for (k, v) in m1 { %><%= k %>=<%= v %><% } %>`, `<%= for (k, v) in m0 { %>never<% } %>`, `<%= for (k, v) in m3 { %>x<% } %>`, `<%= for (k, v) in m3 { %>y<% break %><% } %>`,
+	`<%= for (k, v) in {only: rec(1)} { %><%= k %><%= v %><% } %>`,
+	`<%= for (x) in it { %><%= x %>,<% } %>`, `<%= for (i) in range(1, 3) { %><%= i %><% } %>`, `<%= for (i) in between(1, 4) { %><%= i %><% } %>`, `<%= for (i) in until(3) { %><%= i %><% } %>`,
+	`<%= for (g) in groupBy(2, arr) { %>[<%= for (x) in g { %><%= x %> <% } %>]<% } %>`, `<%= truncate(s3, {size: 4}) %>`, `<%= capitalize(s3) %>`, `<%= pluralize(s3) %>`, `<%= tick() %><%= tick() %>`,
+	`<%= raw(s1) %>`, `<%= json(arr) %>`, `<%= debug(arr) %>`, `<%= ann.Next.Next %>`, `<%= objs[0].Say("yo") %>`, `<%= ann.Next.Say("x") %>`, `<%= upcase(ann.Name) %>`,
+	`<%= if (ann.Next) { %>has<% } %>`, `<% let q = ann %><%= q.Count() %>`, `<%= ann.Meta["none"] %>`, `<%= ann.Tags %>`, `<%= strs %>`,
+	`<% let n = 0 %><%= for (i) in arr { %><% n = n + i %><% } %><%= n %>`, `<% let w = fn(o) { return o.Count() + o.Count() } %><%= w(ann) %>,<%= w(bob) %>,<%= w(ann) %>`,
+	`<%= for (o) in objs { %><%= o.Say(o.Upper()) %> <% } %>`, `<% let p = fn(n) { if (n > 0) { return p(n - 1) + tick() } return 0 } %><%= p(3) %>`,
+	// a name made inside a loop body, a function body, a helper block, a partial or a stored block, read before it is
+	// made: nothing of an earlier entry (of this execution or of an earlier one) may be left when the body is entered again
+	`<%= for (i) in two { %><%= if (seen) { %>again<% } else { %>first<% } %><% let seen = true %><% } %>`,
+	"<% let g = fn() {\n if (inside) {\n return \"stale\"\n }\n let inside = 1\n return \"fresh\"\n} %><%= g() %><%= g() %>",
+	`<%= blk() { %><%= if (inblk) { %>stale<% } %><% let inblk = 1 %>b<% } %><%= blk() { %><%= if (inblk) { %>stale<% } %>c<% } %>`,
+	`<%= partial("rp") %><%= partial("rp") %>`,
+	`<% contentFor("rc") { %><%= if (inc) { %>stale<% } %><% let inc = 1 %>c<% } %><%= contentOf("rc") %><%= contentOf("rc") %>`,
+	`<%= if (nosuch()) { %>x<% } %>`, `<%= partial("n1") %>`,
+	// a map printed whole (nothing today): whatever is printed must not depend on the map's order
+	`<%= m3 %>|<%= {a: 1, b: 2, c: 3} %>|<%= [m3, m1] %>|<%= arr + m3 %>`,
+	// a partial that is given no data still reads the context it is called in
+	`<%= for (x) in arr { %><%= partial("px") %><% } %>`, `<% let v = 1 %><%= partial("pv") %><% v = 2 %><%= partial("pv", {}) %><%= partial("pv") %>`,
+	" \n", "  ", "\n", "text <b>bold</b> ", "7 ", "x9 ",
+}
+
+// pieces that fail: the error text must be the same on every route (nothing in it may depend on a map's order, on an
+// address or on what was rendered before)
+var failingPieces = []string{
+	`<%= sx %>`, `<%= ix %>`, `<%= tx %>`, `<%= ax %>`, `<%= mx %>`, `<%= ann.Nope %>`, `<%= ann.Nope() %>`, `<%= nilp.Name %>`, `<%= arr[9] %>`, `<%= m3[1] %>`, `<%= 1 / 0 %>`, `<%= "a" ~= "(" %>`,
+	`<%= len(1) %>`, `<%= id() %>`, `<%= truncate(1) %>`, `<%= ann.Say(1) %>`, `<% strs[0] = 1 %>`, `<%= ints["a"] %>`, `<%= undefinedfn(1) %>`, `<%= partial("zzz") %>`,
+	`<%= ann.Say("a", "b") %>`, `<%= m3 + 1 %>`, `<%= ann + 1 %>`, `<%= toJSON(id) %>`, `<%= for (x) in 5 { %><% } %>`, `<%= for (x) in ann { %><% } %>`, `<%= objs[0].nm7 %>`, `<%= range("a", m3) %>`, `<%= ann.Meta.k %>`,
+	`<%= truncate(m3) %>`, `<%= truncate(ann) %>`, `<%= ann.Say(m3) %>`, `<%= ann.Say(objs) %>`, `<%= ann.Say(mnest) %>`, `<%= truncate({z: 1, y: 2, x: 3, w: [1, {b: 1, a: 2}]}) %>`, `<%= len(m3, m3, strs) %>`, `<%= m3[ann] %>`, `<%= mi["x"] %>`,
+	`<%= boom() %>`, `<%= pnk() %>`, `<%= tick(1) + m3 %>`, `<%= "x" + 1 + m3 + ann.Nope %>`,
+}
+
+var richPartials = map[string]string{"px": `[<%= x %>]`, "pv": `(<%= v %>)`, "rp": `<%= if (inp) { %>stale<% } %><% let inp = 1 %>p`, "n1": `a<%= partial("n2") %>`, "n2": `b<%= partial("n3") %>`, "n3": `c<%= i1 %>`}
+
+// templates at the edges of the grammar and of size
+func boundaryTemplates() []string {
+	out := []string{"", " ", "\n", "plain text only", "<%", "%>", "<%=", "<% %>", "<%= %>", "<%=%>", "\\<% not a tag %>", "<%% x %>", "<%# c %>", "<%#\n%>x", "<%= 1 %", "<%= \"a\" %>\n"}
+	out = append(out, strings.Repeat("<%= i1 %> ", 400), strings.Repeat("text ", 20000))
+	out = append(out, strings.Repeat("<%= if (t) { %>(", 40)+"x"+strings.Repeat(")<% } %>", 40))
+	var kv, el []string
+	for i := 0; i < 200; i++ {
+		kv = append(kv, fmt.Sprintf("k%d: %d", i%150, i)) // the last 50 keys repeat earlier ones
+		el = append(el, fmt.Sprint(i))
+	}
+	out = append(out, `<% let h = {`+strings.Join(kv, ", ")+`} %><%= h["k7"] %>,<%= h["k149"] %>,<%= len(h) %>`, `<% let a = [`+strings.Join(el, ", ")+`] %><%= a[199] %>,<%= len(a) %>`)
+	return out
+}
+
+// templates that fail (or forgive a failure) on every execution, and one that must go on working however often they failed
+var stormers = []Tmpl{
+	{Src: `<%= partial("bad") %>`},
+	{Src: `<%= partial("p") %>`, Partials: map[string]string{"p": `x<%= nosuch %>`}},
+	{Src: `<%= partial("p") %>`, Partials: map[string]string{"p": `x<%= ( %>`}},
+	{Src: `<%= partial("p", {layout: "lay"}) %>`, Partials: map[string]string{"p": `x`, "lay": `<%= yield %><%= nosuch %>`}},
+	{Src: `<%= if (nosuch()) { %>x<% } %><%= nosuch() == nil %><%= !nosuch() %>ok`},
+	{Src: `<%= boom() %>`},
+	{Src: `<%= pnk() %>`},
+	{Src: `<%= id(boom()) %>`},
+	{Src: `<%= for (x) in arr { %><%= partial("p") %><% } %>`, Partials: map[string]string{"p": `<%= arr[5] %>`}},
+	{Src: `<%= blk() { %>a<%= nosuch %><% } %>`},
+	{Src: `<%= contentOf("none") %>`},
+	{Src: `<% let a = [[1]] %><%= a %><%= a[0][3] %>`},
+	{Src: `<%= ( %>`},
+	{Src: `<% let f = fn(n) { if (n > 12) { return nosuch } return f(n + 1) } %><%= f(0) %>`}, // fails 12 calls deep
+}
+
+var canary = Tmpl{Src: `<%= partial("n1") %>|<% let f = fn(n) { if (n > 0) { return f(n - 1) + 1 } return 0 } %><%= f(8) %>|<%= blk() { %>in<%= i1 %><% } %>|<%= for (x) in [[1, 2], [3]] { %><%= x %><% } %>|<%= contentOf("d") { %>dflt<% } %>`,
+	Partials: map[string]string{"n1": `a<%= partial("n2") %>`, "n2": `b<%= partial("n3") %>`, "n3": `c<%= i1 %>`}}
+
+func richShape(t *rapid.T) Tmpl {
+	n := rapid.IntRange(1, 7).Draw(t, "pieces")
+	var b strings.Builder
+	for i := 0; i < n; i++ {
+		b.WriteString(rapid.SampledFrom(richPieces).Draw(t, "piece"))
+		if rapid.IntRange(0, 3).Draw(t, "gap") == 0 {
+			b.WriteString(rapid.SampledFrom([]string{" ", "\n", "  \n ", "-"}).Draw(t, "ws"))
+		}
+	}
+	if rapid.IntRange(0, 5).Draw(t, "fails") == 0 {
+		b.WriteString(rapid.SampledFrom(failingPieces).Draw(t, "failing"))
+	}
+	return Tmpl{Src: b.String(), Data: "rich", Partials: richPartials}
+}
+
+// tags the parser rejects (each verified to be a parse error on its own)
+var broken = []string{`<%= ( %>`, `<% break %>`, `<%= {"a": } %>`, `<% if %>`, `<% let = 1 %>`, `<% let x 1 %>`, `<%= [1, %>`, `<% for (x) in { %>`, `<%= fn( %>`, `<%= a.b.( %>`,
+	`<% continue %>`, `<%= 1 ) %>`, `<%= if (true) %>`, `<% else %>`, `<%= x[ %>`, `<%= @ %>`, `<% let a = [1,2 %>`, "<%\n\n= ( %>"}
+
+// breakIt plants one rejected tag in front of a tag of the template (or at its end).
+func breakIt(t *rapid.T, base Tmpl) Tmpl {
+	bad := rapid.SampledFrom(broken).Draw(t, "broken")
+	at := []int{len(base.Src)}
+	for i := 0; i+1 < len(base.Src); i++ {
+		if base.Src[i] == '<' && base.Src[i+1] == '%' {
+			at = append(at, i)
+		}
+	}
+	pos := rapid.SampledFrom(at).Draw(t, "at")
+	base.Src = base.Src[:pos] + bad + base.Src[pos:]
+	base.Prog = nil
+	return base
+}
+
+var twinKinds = []string{"space after", "space before", "newline after", "newline before", "tab and newline around", "one digit changed", "one letter's case changed", "two bytes swapped", "last byte dropped", "first byte doubled"}
+
+// twin derives a template whose text differs from base as little as a text can: the cache must still tell them apart.
+func twin(t *rapid.T, base Tmpl) Tmpl {
+	s := base.Src
+	pick := func(ok func(c byte) bool) int {
+		var at []int
+		for i := 0; i < len(s); i++ {
+			if ok(s[i]) {
+				at = append(at, i)
+			}
+		}
+		if len(at) == 0 {
+			return -1
+		}
+		return rapid.SampledFrom(at).Draw(t, "pos")
+	}
+	switch rapid.IntRange(0, len(twinKinds)-1).Draw(t, "twin") {
+	case 0:
+		s += " "
+	case 1:
+		s = " " + s
+	case 2:
+		s += "\n"
+	case 3:
+		s = "\n" + s
+	case 4:
+		s = "\t" + s + "\n"
+	case 5:
+		if i := pick(func(c byte) bool { return c >= '0' && c <= '9' }); i >= 0 {
+			s = s[:i] + string('0'+(s[i]-'0'+1)%10) + s[i+1:]
+		} else {
+			s += "1"
+		}
+	case 6:
+		if i := pick(func(c byte) bool { return c >= 'a' && c <= 'z' }); i >= 0 {
+			s = s[:i] + string(s[i]-32) + s[i+1:]
+		} else {
+			s += "a"
+		}
+	case 7:
+		if len(s) >= 2 {
+			i := rapid.IntRange(0, len(s)-2).Draw(t, "swap")
+			s = s[:i] + string(s[i+1]) + string(s[i]) + s[i+2:]
+		}
+	case 8:
+		if len(s) > 0 {
+			s = s[:len(s)-1]
+		}
+	default:
+		if len(s) > 0 {
+			s = s[:1] + s
+		}
+	}
+	base.Src = s
+	base.Prog = nil
+	return base
+}
+
+// ---- names that must not travel from one template to another ----------------------------------------
+
+// "§" stands for a number that is new for every history: a name that leaked earlier in the process must not hide a leak
+var definers = []Tmpl{
+	{Src: `<% let shared§ = 5 %><%= shared§ %>`},
+	{Src: `<% let sf§ = fn(x) { return x + 1 } %><%= sf§(1) %>`},
+	{Src: `<% contentFor("scf§") { %>CF<% } %><%= contentOf("scf§") %>`},
+	{Src: `<%= partial("sp§") %>`, Partials: map[string]string{"sp§": `<% let inpart§ = 1 %>P<%= inpart§ %>`}},
+	{Src: `<%= for (lv§) in two { %><%= lv§ %><% } %>`},
+	{Src: `<% let sh§ = {a: 1} %><% sh§["a"] = 2 %><%= sh§["a"] %>`},
+	{Src: `<%= objs[0].nm§ %>`, Data: "rich"}, // the name as a member selected from an element / a call result (fails: no such field)
+	{Src: `<%= id(ann).nm§ %>|<%= ann.nm§ %>`, Data: "rich"},
+	{Src: `<% let shared§ = 5 %><% let sf§ = fn(x) { return x + 1 } %><% contentFor("scf§") { %>CF<% } %><%= for (lv§) in two { %><%= lv§ %><% } %><%= partial("sp§") %><%= shared§ %><%= sf§(1) %><%= contentOf("scf§") %>`,
+		Partials: map[string]string{"sp§": `<% let inpart§ = 1 %><% let sf2§ = fn() { return 2 } %><% contentFor("scf2§") { %>in partial<% } %>P<%= inpart§ %>`}},
+}
+
+var users = []Tmpl{
+	{Src: `<%= shared§ %>`},
+	{Src: `[<%= shared§ == nil %>|<%= if (sf§) { %>sf<% } else { %>none<% } %>|<%= if (sh§) { %>sh<% } %>]`},
+	{Src: `<%= sf§(2) %>`},
+	{Src: `<%= contentOf("scf§") %>`},
+	{Src: `<%= contentOf("scf§") { %>fallback<% } %>|<%= contentOf("scf2§") { %>fallback2<% } %>`},
+	{Src: `<%= partial("sp§") %>`},
+	{Src: `<%= partial("sp§") %>`, Partials: map[string]string{"sp§": `other text <%= i1 %>`}},
+	{Src: `<%= if (lv§) { %>lv<% } %>|<%= if (inpart§) { %>inpart<% } %>|<%= sf2§() %>`},
+	{Src: `<% let nm§ = "v" %><%= nm§ %>|<%= if (nm§) { %>set<% } %>`},
+	{Src: `<% let shared§ = 1 %><% let sf§ = fn(x) { return x * 2 } %><% contentFor("scf§") { %>own<% } %><%= shared§ %><%= sf§(3) %><%= contentOf("scf§") %>`},
+}
+
+// numbered replaces "§" by n in the text, the partial names and the partial texts.
+func numbered(t Tmpl, n int64) Tmpl {
+	id := fmt.Sprint(n)
+	out := Tmpl{Src: strings.ReplaceAll(t.Src, "§", id), Data: t.Data}
+	for k, v := range t.Partials {
+		if out.Partials == nil {
+			out.Partials = map[string]string{}
+		}
+		out.Partials[strings.ReplaceAll(k, "§", id)] = strings.ReplaceAll(v, "§", id)
+	}
+	return out
+}
+
+const rule = "templates: (1) random programs over all constructs (shared generator; some with planted faults so that errors must be deterministic too) spliced with hash literals of 3-5 entries whose values call a recording helper and with duplicate keys; (2) SHAPES written as text over richer data (maps, structs with a nested pointer, a method with per-instance state, a recording method, a value-receiver method, typed slices, a time, an iterator, a helper that counts per context): hash literals of 0..12 entries over a 6-key pool (identifier and string keys, duplicate keys, values that record / count / are literals only / nest) used in place, through let, in a loop body and a function body entered several times, as data of a partial and of contentOf, nested in arrays and hashes, encoded whole, and assigned to after they were made; array literals of 0..6 elements likewise; 1-7 pieces out of 71 (sometimes followed by one of 42 pieces that fail: unknown names, missing members, bad indexes and arguments whose printed form holds maps and pointers, failing and panicking helpers) over the rich data (member paths, methods, built-in helpers, iterators, names read before they are made inside a loop body / function body / helper block / partial / stored block that is entered twice, for over a Go map only where the order cannot show: no entry, one entry, a body blind to the entry); (3) any of these with one tag the parser rejects planted in front of one of its tags (18 rejected tags); (4) TWINS: a template of the history again with a minimal difference (white space before/after, one digit, one letter's case, two bytes swapped, last byte dropped, first byte doubled); plus (E) each of the 71 + 42 pieces on its own, the 277 templates harvested from the repository's tests, 9 hash-literal snippets, 21 boundary templates (empty, a lone tag opener or closer, escaped opener, 400 tags, 100 kB of text, 40 nested ifs, a 200-entry hash and array literal) and a partial that includes itself (overlapping executions of one cached template object). Histories: 1-3 templates x up to 14 interleaved actions from 14 routes {Exec again on the parsed template, NewTemplate+Exec, Clone+Exec, Render with the cache off, Render with the cache on and cold (text made unique by a leading comment tag), Render cache-on warm, Parse through the cache then Exec, Exec twice on the cached object, BuffaloRenderer cache off / on, RenderR, a zero-value Template{Input} that parses in its first Exec + second Exec + Clone, Parse() again then Exec, Clone of a Clone then the original}; a template the parser rejects goes through the same routes (Exec / Clone on the Template returned next to the error; the text of the error value held from the first parse is read again at every step); context data rebuilt fresh-but-equal for every execution. (E) every template x all 14 actions x 2 rounds; (E) long runs: one route repeated 40 times (Exec, Clone, warm cache, cached object) for the snippets, every 8th harvested template and fixed templates with white-space-only text between tags; (E) error storms: 14 templates that fail or forgive a failure (partial feeder / render / parse error inside a partial and its layout, a forgiven unknown function, a helper that fails or panics, a failure in a helper block, in a loop, a missing block, a parse error, a failure 12 calls deep in a recursion) executed 1100 times in a row on three routes between executions of a healthy template (nested partials, recursion, helper block, nested arrays, default block) that then goes through all routes,; (E) name leaks: [user, definer, user, definer, user] for 10 templates that only USE a name (let variable, function, contentFor block, partial, loop variable, names made inside a partial; or that make it for themselves) x definers of these names (also as a member name after an index or a call) x every route for the definer (quick: 5 routes) x every route for the user, the names numbered afresh for every history; (R) random histories over (1), and over (1)-(4) mixed. Oracle: every (output, error text with addresses normalised, recorded helper invocation order) equals the first result for that template; the deep structural hash of the parsed program (all fields incl. token lines, pointer topology, H1 accessor) and the Input are identical after every Exec, also for the cached object around a warm render. Excluded by construction: for over Go maps / multi-entry hash literals where the order can show (the licensed variation); printing pointers (addresses are not data). Non-trivial = histories of >= 3 actions; distinct by (templates, actions)."
 
 func setup(t *testing.T) *vk.Run {
 	r := vk.Start(t, "C13", rule,
@@ -355,8 +949,12 @@ func setup(t *testing.T) *vk.Run {
 		if len(c.Templates) == 0 {
 			return &vk.Fail{Kind: "decode", Msg: "no templates"}
 		}
-		// determinism failures are probabilistic (map order): replay a few times
-		for i := 0; i < 40; i++ {
+		// determinism failures are probabilistic (map order): replay a few times (long histories repeat in themselves)
+		reps := 40
+		if len(c.Actions) > 60 {
+			reps = 3
+		}
+		for i := 0; i < reps; i++ {
 			if f := runCase(r, c, "replay"); f != nil {
 				return f
 			}
@@ -380,7 +978,7 @@ func TestProp(t *testing.T) {
 			all = append(all, [2]int{0, a})
 		}
 	}
-	srcs := append(append([]string{}, hashSnippets...), corpus.Templates()...)
+	srcs := append(append(append([]string{}, hashSnippets...), corpus.Templates()...), boundaryTemplates()...)
 	var n int64
 	for i, s := range srcs {
 		if !r.Mine(int64(i)) {
@@ -395,6 +993,13 @@ func TestProp(t *testing.T) {
 			n++
 		}
 	}
+	// every piece of the rich pool on its own, through all actions twice
+	for i, pc := range append(append([]string{}, richPieces...), failingPieces...) {
+		if r.Mine(int64(i)) {
+			r.Check(runCase(r, Case{Templates: []Tmpl{{Src: pc, Data: "rich", Partials: richPartials}}, Actions: all}, "corpus"))
+			n++
+		}
+	}
 	// a partial that includes itself: with the cache on, the nested Render gets the SAME cached *Template as the
 	// execution it is called from, so two executions of one template object overlap
 	self := `<%= n %>(<%= if (n > 0) { %><%= partial("self", {n: n - 1}) %><% } %>)<%= n %>`
@@ -403,18 +1008,123 @@ func TestProp(t *testing.T) {
 		r.Check(runCase(r, Case{Templates: []Tmpl{rec, {Src: self + `<% let n = 1 %>`, Partials: map[string]string{"self": self}}}, Actions: append(append([][2]int{}, all...), [2]int{1, 4}, [2]int{1, 5}, [2]int{0, 5}, [2]int{1, 6})}, "recursive-partial"))
 		n++
 	}
-	r.Subspace("harvested templates, hash snippets and a self-including partial x all 8 actions x 2 rounds", n, true)
+	r.Subspace("harvested templates, hash snippets, boundary templates, the 71 + 42 pieces over the rich data and a self-including partial x all 14 actions x 2 rounds", n, true)
 
-	r.Rapid("histories", r.Pick(2500, 30000), func(t *rapid.T) *vk.Fail {
-		nt := rapid.IntRange(1, 3).Draw(t, "ntemplates")
-		c := Case{}
-		for i := 0; i < nt; i++ {
-			c.Templates = append(c.Templates, genTmpl(t))
+	// E: long runs of one route: state that builds up per template object or per cache entry (a use counter, say)
+	// shows only after many executions
+	long := []Tmpl{{Src: "<%= i1 %> <%= i2 %>\n<%= s3 %>  \n"}, {Src: " <% let a = 1 %> \n <%= a %> \n"}, {Src: "<%= for (x) in arr { %> <%= x %> <% } %> \t <%= t %>"},
+		{Src: `<%= ann.Count() %> <%= for (o) in objs { %> <%= o.Count() %> <% } %> <%= tick() %>`, Data: "rich"}}
+	for _, s := range hashSnippets {
+		long = append(long, Tmpl{Src: s})
+	}
+	for i, s := range corpus.Templates() {
+		if i%8 == 0 {
+			long = append(long, Tmpl{Src: s})
 		}
-		na := rapid.IntRange(2, 14).Draw(t, "nactions")
-		for i := 0; i < na; i++ {
-			c.Actions = append(c.Actions, [2]int{rapid.IntRange(0, nt-1).Draw(t, "tmpl"), rapid.IntRange(0, len(actionNames)-1).Draw(t, "action")})
+	}
+	n = 0
+	for i, tm := range long {
+		if !r.Mine(int64(i)) {
+			continue
 		}
-		return runCase(r, c, "random")
-	})
+		for _, a := range []int{aExec, aClone, aWarm, aCachedTwice} {
+			acts := [][2]int{{0, aRender}}
+			for k := 0; k < 40; k++ {
+				acts = append(acts, [2]int{0, a})
+			}
+			acts = append(acts, [2]int{0, aNew})
+			r.Check(runCase(r, Case{Templates: []Tmpl{tm}, Actions: acts}, "long-run"))
+			n++
+		}
+	}
+	r.Subspace("long runs: templates x {Exec, Clone, warm cache, cached object} x 40 repetitions", n, true)
+
+	// E: error storms: a template that fails (or forgives a failure) 1100 times in a row - more often than any depth
+	// limit counts - must fail the same way every time, and must leave nothing behind that a healthy template notices
+	n = 0
+	for i, sm := range stormers {
+		if !r.Mine(int64(i)) {
+			continue
+		}
+		for _, route := range []int{aRender, aParseExec, aExec} {
+			acts := [][2]int{{0, aRender}, {0, aExec}}
+			for k := 0; k < 1100; k++ {
+				acts = append(acts, [2]int{1, route})
+			}
+			for a := range actionNames {
+				acts = append(acts, [2]int{0, a})
+			}
+			r.Check(runCase(r, Case{Templates: []Tmpl{canary, sm}, Actions: acts}, "storm"))
+			n++
+		}
+	}
+	r.Subspace("error storms: failing templates x {Render, cached object, Exec again} x 1100 repetitions around a healthy template", n, true)
+
+	// E: a name made by one template must not reach another template, whatever routes the two take
+	n = 0
+	defs := definers[len(definers)-3:]
+	if r.Thorough() {
+		defs = definers
+	}
+	var cell int64
+	for _, d := range defs {
+		for _, u := range users {
+			for rd := range actionNames {
+				if r.Quick() && rd != aExec && rd != aRender && rd != aWarm && rd != aParseExec && rd != aLazy {
+					continue
+				}
+				for ru := range actionNames {
+					cell++
+					if !r.Mine(cell) {
+						continue
+					}
+					c := Case{Templates: []Tmpl{numbered(u, cell), numbered(d, cell)}, Actions: [][2]int{{0, aRender}, {1, rd}, {0, ru}, {1, rd}, {0, ru}}}
+					r.Check(runCase(r, c, "name-leak"))
+					n++
+				}
+			}
+		}
+	}
+	r.Subspace("name leaks: users x definers x route of the definer x route of the user, history [user, definer, user, definer, user]", n, true)
+
+	histories := func(gen func(t *rapid.T, prev []Tmpl) Tmpl, class string) func(t *rapid.T) *vk.Fail {
+		return func(t *rapid.T) *vk.Fail {
+			nt := rapid.IntRange(1, 3).Draw(t, "ntemplates")
+			c := Case{}
+			for i := 0; i < nt; i++ {
+				c.Templates = append(c.Templates, gen(t, c.Templates))
+			}
+			na := rapid.IntRange(2, 14).Draw(t, "nactions")
+			for i := 0; i < na; i++ {
+				c.Actions = append(c.Actions, [2]int{rapid.IntRange(0, nt-1).Draw(t, "tmpl"), rapid.IntRange(0, len(actionNames)-1).Draw(t, "action")})
+			}
+			return runCase(r, c, class)
+		}
+	}
+	r.Rapid("histories", r.Pick(2000, 15000), histories(func(t *rapid.T, _ []Tmpl) Tmpl { return genTmpl(t) }, "random"))
+
+	r.Rapid("shapes", r.Pick(3000, 20000), histories(func(t *rapid.T, prev []Tmpl) Tmpl {
+		k := rapid.IntRange(0, 9).Draw(t, "family")
+		if len(prev) > 0 && k >= 7 {
+			return twin(t, prev[rapid.IntRange(0, len(prev)-1).Draw(t, "of")])
+		}
+		var tm Tmpl
+		switch k % 7 {
+		case 0, 1:
+			tm = hashShape(t)
+		case 2:
+			tm = arrayShape(t)
+		case 3, 4:
+			tm = richShape(t)
+		case 5:
+			tm = genTmpl(t)
+		default:
+			tm = hashShape(t)
+			tm.Src += richShape(t).Src
+		}
+		if rapid.IntRange(0, 4).Draw(t, "break") == 0 {
+			tm = breakIt(t, tm)
+		}
+		return tm
+	}, "shapes"))
 }
